@@ -22,7 +22,8 @@
   cannot fail through the curtailment of an active parser.  `L` is threaded through the grammar exactly as
   the left-recursion context is: extended at a Memoize, reset after an element that must consume.
 
-  `productive c env root` is the check; Proofs/ProdRun.lean shows what it guarantees.  Without it the
+  `productive c env root` is the check; Proofs/ProdRun.lean, ProdBlame.lean and ProdLow.lean show what it
+  guarantees (Props/C06P.lean: the reported error position equals the furthest failing terminal).  Without it the
   statement is false: D8 (`N → Choice(N)`, no derivation at all) and the new finding D12
   (`P → Optional(Name(P))`: every nonterminal derives a string, and still an error is reported beyond every
   terminal that was tried) — both are rejected by every certificate (Props/C06P.lean).
@@ -89,7 +90,7 @@ def ok (c : ProdCert) (L : List Nat) : G → Bool
   | .empty => true
   | .eof => true
   | .ref k => L.all (fun j => (c.live k).contains j)
-  | .memo i b => ok c (i :: L) b
+  | .memo i b => pr c (c.prank i) b && ok c (i :: L) b
   | .any gs => okAll c L gs
   | .choice gs => okAll c L gs
   | .seq _ gs _ => okSeq c L true gs
